@@ -188,8 +188,10 @@ func SetScratch(dir string) {
 }
 
 var (
-	sharedWhereRule = transform.AddWhereFromSQL("tenant_id = 42 AND deleted_at IS NULL")
-	sharedJoinRule  = transform.AddJoinFromSQL("LEFT JOIN tenants tn ON tn.id = t.tenant_id")
+	sharedWhereRule  = transform.AddWhereFromSQL("tenant_id = 42 AND deleted_at IS NULL")
+	sharedJoinRule   = transform.AddJoinFromSQL("LEFT JOIN tenants tn ON tn.id = t.tenant_id")
+	sharedLimitRule  = transform.SetLimit(5)
+	sharedOffsetRule = transform.SetOffset(40)
 )
 
 var theLinter = linter.New(
@@ -400,8 +402,18 @@ func (o Op) Exec(hold bool) (res string, held []Held) {
 			aerr = transform.Apply(a.Statements[0], sharedWhereRule)
 		case 2:
 			aerr = transform.Apply(a.Statements[0], sharedJoinRule)
-		default:
+		case 3:
 			aerr = transform.Apply(a.Statements[0], sharedWhereRule, sharedJoinRule)
+		}
+		// paging rules: one rule value reused for many trees, and now and then a
+		// different limit on top of it for this tree only
+		switch len(o.SQL) % 4 {
+		case 0:
+			aerr2 := transform.Apply(a.Statements[0], sharedLimitRule, sharedOffsetRule)
+			_ = aerr2
+		case 1:
+			_ = transform.Apply(a.Statements[0], sharedLimitRule)
+			_ = transform.Apply(a.Statements[0], transform.SetLimit(10+o.Flag), transform.SetOffset(3))
 		}
 		res = treeCanon(a, aerr)
 		keepTree(a)
